@@ -11,7 +11,8 @@ EXPLANATION = (
     'record (de)serialisers write/read n entries, n verification entries under the verification flag and one extension under the extension flag; (R09c) writer and reader walk the same (width, field) token '
     'table for the shard header, footer and the six fixed-size record types, and the widths sum to the struct size; (R09d) in every shard writer each footer offset/count field is assigned on every path before '
     'the footer is serialised, and the chunk lookup rows are sorted before written; (R09e) the in-memory shard\'s running size uses the value replaced by an insert, and the recomputed size counts one chunk row '
-    'per chunk of every xorb, like the writer. Not decided: the interpolation search arithmetic (probe placement, window scan).')
+    'per chunk of every xorb, like the writer; (R09f) the truncated-prefix search keeps the window invariant: the lower bound rises only past keys smaller than the target, the upper bound falls only to keys >= the target, '
+    'and the final scan stops early only after a larger key. Not decided: the interpolation arithmetic itself (probe placement, termination/progress).')
 
 SF = 'mdb_shard::shard_format::'
 FS = 'mdb_shard::file_structs::'
@@ -30,6 +31,8 @@ def run(ctx):
     ctx.guarded('R09c', 'token tables', lambda: r09c(ctx))
     ctx.guarded('R09d', 'footer', lambda: r09d(ctx))
     ctx.guarded('R09e', IM + 'add_cas_block', lambda: r09e(ctx))
+    ctx.rule('R09f', 'truncated-prefix search: the probe loop moves its lower bound only when the probed key is smaller than the target and its upper bound only when it is >= the target, to the probed position; equal keys before the probe stay inside the window')
+    ctx.guarded('R09f', 'mdb_shard::interpolation_search::search_on_sorted_u64s', lambda: r09f(ctx))
 
 
 def r09a(ctx):
@@ -417,3 +420,72 @@ def r09e(ctx):
             per = True
     ctx.check(not bad and per, 'R09e', r.path, 'chunk rows', '-', 'recalculate_shard_size counts one chunk lookup row per chunk of every xorb (like the serialiser), not per unique chunk hash',
               'recalculate_shard_size counts chunk lookup rows by unique chunk hash while the serialiser writes one row per chunk')
+
+
+def r09f(ctx):
+    """window invariant of the probe loop: all entries equal to the target stay inside (lo, hi]"""
+    a = an(ctx.F.one('mdb_shard::interpolation_search::search_on_sorted_u64s'))
+    fn = a.path
+    loops = a.cfg.loops()
+    cmps = a.calls('core::cmp::Ord::cmp')
+    probe = None
+    for h, blks in loops.items():
+        if any(c in blks for c in cmps) and any(sg(a.term(b).get('fn', '')) == 'std::io::Seek::seek' for b in blks if a.blocks[b]['t']['k'] == 'call'):
+            if probe is None or len(blks) > len(probe[1]):
+                probe = (h, blks)
+    if not ctx.check(probe is not None, 'R09f', fn, 'probe loop', '-', 'found the seek-and-compare probe loop'):
+        return
+    head, blks = probe
+    cs = [c for c in cmps if c in blks and c05.loop_of(a, c)[0] == head]
+    if not ctx.check(len(cs) == 1, 'R09f', fn, 'comparison', '-', 'one three-way comparison of the target with the probed key per iteration'):
+        return
+    c = cs[0]
+    x, y = a.arg(c, 0), a.arg(c, 1)
+    target_first = x == ('param', 4, 'key') or (x[0] == 'param' and x[2] == 'key')
+    ctx.check(target_first and a.root_call(y) is not None and sg(a.root_call(y)[1]).endswith('read_u64'), 'R09f', fn, 'cmp operands', a.loc(c), 'the comparison is target.cmp(probed key read from the table)')
+    ve = a.variant_edges(c, 'core::cmp::Ordering')
+    less, equal, greater = ve.get('255', []), ve.get('0', []), ve.get('1', [])
+    ctx.check(bool(less) and bool(equal) and bool(greater), 'R09f', fn, 'arms', a.loc(c), 'all three outcomes are distinguished')
+    latches = [(b, head) for b in blks if head in a.cfg.succ[b]]
+
+    def assigned_in_loop(name):
+        out = []
+        for l, ld in enumerate(a.body['locals']):
+            if ld.get('n') == name:
+                for d in a.flow.defs.get(l, []):
+                    if d[0] == 'assign' and d[1] in blks:
+                        out.append((d[1], d[2], a.flow.rvalue(d[3], 0)))
+        return out
+    # lower bound: only after target > probed key (Greater), to the probed position
+    for (b, si, e) in assigned_in_loop('lo'):
+        ok = bool(greater) and b not in a.cfg.reach([head], cut_edges=set(greater) | set(latches))
+        ctx.check(ok, 'R09f', fn, 'lo moves', a.loc(b, si), 'the lower bound is raised only on the "target > probed key" edge',
+                  'the lower bound of the search window is raised on a path where the probed key is not smaller than the target: entries equal to the target in front of the probe fall out of the window (lookups miss stored records when several share a prefix)')
+        ctx.check(e[0] == 'local' and e[2] == 'probe_index', 'R09f', fn, 'lo value', a.loc(b, si), 'the lower bound becomes the probed position')
+    for (b, si, e) in assigned_in_loop('hi'):
+        ok = b not in a.cfg.reach([head], cut_edges=set(less) | set(equal) | set(latches))
+        ctx.check(ok, 'R09f', fn, 'hi moves', a.loc(b, si), 'the upper bound is lowered only on the "target <= probed key" edges',
+                  'the upper bound of the search window is lowered on a path where the probed key is smaller than the target')
+        ctx.check(e[0] == 'local' and e[2] == 'probe_index', 'R09f', fn, 'hi value', a.loc(b, si), 'the upper bound becomes the probed position')
+    ctx.floor('R09f', 'window-bound assignments in the probe loop', len(assigned_in_loop('lo')) + len(assigned_in_loop('hi')), 3)
+    # on the Equal edge the matching run from the probe up to hi is read out before hi is lowered
+    his_eq = [(b, si) for (b, si, e) in assigned_in_loop('hi') if b not in a.cfg.reach([head], cut_edges=set(equal) | set(latches))]
+    wr = [w for w in a.calls() if w in blks and 'write_result' in flow.show(a.flow.expr(a.term(w)['args'][0])) or (a.term(w).get('fn', '').endswith('FnMut::call_mut') and w in blks)]
+    ok = bool(his_eq) and bool(wr) and all(any(b not in a.cfg.reach([t for (_, t) in equal], cut_edges=set(a.cfg.out_edges(w)) | set(latches)) for w in wr) for (b, si) in his_eq)
+    ctx.check(ok, 'R09f', fn, 'equal arm reads first', '-', 'in the equal arm a value is recorded before the upper bound moves to the probe')
+    # the final sequential scan covers (lo, hi): starts at lo, advances lo by 1 per entry, stops only on target < key
+    seq = [(h2, b2) for h2, b2 in loops.items() if h2 != head and any(c2 in b2 for c2 in cmps)]
+    if ctx.check(len(seq) == 1, 'R09f', fn, 'scan loop', '-', 'found the final sequential scan'):
+        h2, b2 = seq[0]
+        c2 = [c_ for c_ in cmps if c_ in b2][0]
+        ve2 = a.variant_edges(c2, 'core::cmp::Ordering')
+        exits = [(p, q) for p in b2 for q in a.cfg.succ[p] if q not in b2]
+        errb = {bb for (bb, si, k, _) in a.ret_sites() if k == 'err'}
+        # exits other than the loop condition's own exit and error exits must pass the Less edge
+        cond_exits = [(p, q) for (p, q) in exits if p == h2 or a.cfg.must_pass(p, via_blocks=[h2]) and c2 not in a.cfg.reach([h2], cut_blocks=[p]) and False]
+        early = [(p, q) for (p, q) in exits if p in a.cfg.reach([c2]) and p != h2 and q not in errb and not (a.cfg.reach([q]) <= (errb | a.cfg.reach(list(errb)))) ]
+        ok = all(p not in a.cfg.reach([b_ for (_, b_) in ve2.get('0', []) + ve2.get('1', [])], cut_edges=[(x_, h2) for x_ in b2 if h2 in a.cfg.succ[x_]]) for (p, q) in early)
+        ctx.check(ok, 'R09f', fn, 'scan exits', a.loc(c2), 'the sequential scan stops early only after seeing a key greater than the target', 'the sequential scan can stop early although equal keys may follow')
+        rec = [w for w in a.calls() if w in b2 and a.term(w).get('fn', '').endswith('FnMut::call_mut')]
+        ok2 = bool(rec) and all(w not in a.cfg.reach([h2], cut_edges=set(ve2.get('0', [])) | {(x_, h2) for x_ in b2 if h2 in a.cfg.succ[x_]}) for w in rec)
+        ctx.check(ok2, 'R09f', fn, 'scan records', a.loc(c2), 'the scan records a value exactly on the equal edge')
